@@ -56,7 +56,7 @@ fn discrete_decls(r: &mut Rng, n: usize, with_real: bool) -> Vec<VarDecl> {
 }
 
 pub fn program(r: &mut Rng, with_real: bool) -> (Model, String) {
-    let cfg = ModelCfg { max_vars: 3, depth: 2, logic: true, piecewise: true, unbounded: false, fractional: false, strict_cmp: false };
+    let cfg = ModelCfg { max_vars: 3, depth: 2, logic: true, piecewise: true, unbounded: false, fractional: false, strict_cmp: false, hostile: false };
     let nv = 1 + r.below(3);
     let ds = discrete_decls(r, nv, with_real);
     let (m, _) = gen_model::model_with(r, &cfg, ds);
